@@ -43,6 +43,9 @@ def run(ctx):
     # a rule's window may read the resource node's array only if it tiles it (otherwise tokens at the start of the window are forgotten)
     from . import rules_C02
     rules_C02.reuse_validator(ctx, f, cfg, R="C01.wiring/reuse-validator")
+    # the tokens a rule sees are those of ITS window: the window metric selects the array's buckets only through the expiry filter
+    # and the bucket-aligned start range (C02's gateway rules, part of this property's "inside that rule's current statistic window")
+    rules_C02.gateway(ctx, f, cfg)
 
 
 def _reject_checkers(f):
